@@ -485,8 +485,13 @@ pub open spec fn exchange_ok(d: Seq<Dirent>, off: u64, got: Seq<Dirent>) -> bool
     known(d, off) && exists|e: int| after(d, off) <= e <= d.len() && (e == after(d, off) ==> e == d.len())
         && #[trigger] got.is_prefix_of(visible(d.subrange(after(d, off), e)))
 }
-// ASSUMED about the exchange (hypothesis, not proved here): an empty reply is given only when nothing visible is left -
-// i.e. the reply buffer holds at least the next entry (property text) AND the batch read contains a visible entry unless none is left
+// "ends with an empty reply" read the other way round: an empty reply is given only when nothing visible is left.  On the callback log of
+// one do_readdir call this is call_progress - the CHECKED postcondition [C16.do_readdir.progress] - and for the client it is `progress`,
+// which follows from it (lemma_exchange_from_calls) under the property's premise that the reply buffer holds at least the next entry
+// (the first entry offered is accepted).
+pub open spec fn call_progress(inode: u64, off: u64, calls: Seq<CallRec>) -> bool {
+    calls.len() == 0 ==> visible(dir_content(inode).skip(after(dir_content(inode), off))).len() == 0
+}
 pub open spec fn progress(d: Seq<Dirent>, off: u64, got: Seq<Dirent>) -> bool {
     got.len() == 0 ==> visible(d.skip(after(d, off))).len() == 0
 }
@@ -502,6 +507,8 @@ pub proof fn lemma_exchange_from_calls(inode: u64, off: u64, calls: Seq<CallRec>
     ensures exchange_ok(dir_content(inode), off, got), got.len() == n_accepted(calls),
             forall|j: int| 0 <= j < got.len() ==> accepted(#[trigger] calls[j]) && calls[j].ino == got[j].ino && calls[j].off == got[j].off
                 && calls[j].ty == got[j].ty as u32 && calls[j].name == got[j].name && fd_ino(calls[j].fd) == inode, // [C16.lemma.exchange] each delivered entry carries the ino, cookie, type and name of its directory entry
+            // the client's progress = the call's postcondition + "the reply buffer holds at least the next entry"
+            call_progress(inode, off, calls) && (calls.len() > 0 ==> accepted(calls[0])) ==> progress(dir_content(inode), off, got), // [C16.lemma.progress]
 {
     let dd = dir_content(inode);
     let (e, fd) = choose|e: int, fd: int| after(dd, off) <= e <= dd.len() && (e == after(dd, off) ==> e == dd.len()) && fd_ino(fd) == inode
@@ -583,6 +590,8 @@ DR_ENS = [
     'extends(final(add_entry).log(), old(add_entry).log())',
     # the core: resuming from 0 or from the cookie of any entry offers the run that starts right after it
     'res is Ok && size != 0 && known(%s, offset) ==> resume_post(inode, offset, %s) // [C16.do_readdir.resume] the batch offered starts right after the cookie and is empty only at the end of the directory' % (D_, CALLS),
+    ('res is Ok && size != 0 && known(%s, offset) ==> call_progress(inode, offset, %s) '
+     '// [C16.do_readdir.progress] nothing offered to the callback (an empty reply) only if nothing visible is left after the cookie') % (D_, CALLS),
     ('res is Ok && !known(%s, offset) && offset > 0x7fff_ffff_ffff_ffffu64 ==> %s.len() == 0 '
      '// [C16.do_readdir.stale] an unknown cookie on the scan path yields an empty reply, not a loop') % (D_, CALLS),
     'size == 0 ==> %s.len() == 0 && *final(ks) == *old(ks)' % CALLS,
@@ -693,6 +702,19 @@ REC_END = '''proof {
             let calls = new_calls(add_entry.log(), log0);
             if !stopped { assert(parse(rem@).len() == 0); lemma_step_done(batch, calls, fd); }
             lemma_exit(inode, offset, fd, ks5.pos[fd], batch, calls);
+            let dd = dir_content(inode); let p = ks5.pos[fd];
+            if known(dd, offset) && calls.len() == 0 {
+                lemma_find_off(dd, offset);
+                if batch.len() == 0 {
+                    assert(dd.skip(after(dd, offset)) =~= Seq::<Dirent>::empty());      // the batch is empty only at the end of the directory
+                } else {
+                    reveal(delivered_ok);
+                    assert(visible(batch).len() == 0);                                 // nothing was offered: every record of the batch is "." or ".."
+                    assert(visible(dd.skip(p)).len() == 0); // [C16.do_readdir.progress] a batch made only of "." / ".." must not end the listing: nothing visible may be left behind it
+                    assert(dd.skip(after(dd, offset)) =~= batch + dd.skip(p));
+                    lemma_visible_add(batch, dd.skip(p));
+                }
+            }
             if !known(dir_content(inode), offset) && offset > 0x7fff_ffff_ffff_ffffu64 { reveal(delivered_ok); assert(visible(batch) =~= Seq::<Dirent>::empty()); }
         }'''
 
@@ -786,5 +808,5 @@ def unit(root='/repo'):
     u = Unit('ptreaddir', items, preludes=['base.rs', 'stdmodel.rs'], generic_tags={},
              notes='C16 passthrough side: kernel directory stream modelled as Seq<Dirent> + per-descriptor position (module sys, KState); '
                    'callback = generic AddEntry with a ghost call log; cross-call statement = proof fns lemma_c16_step / lemma_c16 '
-                   '(hypothesis `progress`: an empty reply only when nothing visible is left - violated for tiny reply buffers, see findings/repro_pt_readdir.rs)')
+                   '(`progress` - an empty reply only when nothing visible is left - is the checked postcondition [C16.do_readdir.progress]; it FAILS on the current text: a batch made only of . / .. gives an empty reply, see findings/repro_pt_readdir.rs)')
     return u
